@@ -1,6 +1,6 @@
 """C03 — inbound decoding is faithful, chunking-invariant, robust."""
 import re
-from ..mir import show, short, norm, subexprs, fold
+from ..mir import show, short, norm, subexprs, fold, var_inits
 from .. import prims, panics
 from ..prims import guarded_any, guard_strs
 from ..spec import mqtt5, mqtt311
@@ -207,6 +207,10 @@ def run(ctx):
                     if a[2] and fold(a[1][2]) == want:
                         okfb = True
                 ctx.ob(okfb, '%s accepts only first byte 0x%02X' % (short(pv.path), want), 'decfirstbyte|%s|%s' % (ver, var), loc=pv.loc())
+                rbad = prims.rets_after(pv, [r'^!\(first_byte == '])
+                okret = [b for b, e in prims.ret_variants(pv) if e[0] == 'agg' and e[2] == 'Ok']
+                ctx.ob(rbad == {'Err'} and bool(okret) and all(prims.guarded_any(pv, b, [r'^\(first_byte == ']) for b in okret),
+                       '%s: any other first byte is a decoding error, and a packet is produced only under the matching first byte (outcomes after a mismatch: %s)' % (short(pv.path), sorted(rbad or ['test not found'])), 'decfirstbyte-complete|%s|%s' % (ver, var), loc=pv.loc())
     ctx.floor(nd, 21, 'decoder dispatch entries')
     dp = ctx.fn('decode::decode_packet')
     for cs in dp.calls():
@@ -217,6 +221,31 @@ def run(ctx):
     # ------------------------------------------------------------ R-C03-7
     ctx.rule('R-C03-7', 'T9 def-use chain + T4', 'wire layout: in every server-to-client packet decoder the fields are taken off the body cursor in the order the specification lays them out (reaching-definition chain over the cursor), each into the field of that meaning; optional middle fields are bypassed, the property section is exactly the announced length, the payload / reason-code list is the rest')
     run_layout(ctx, F)
+
+
+    # ---- variable byte integer arithmetic (specification 1.5.5): constants and their roles
+    def _binops(v):
+        out = []
+        for (i, j, s_) in v.stmts():
+            if s_['k'] == 'assign' and s_['rv'].get('k') == 'bin' and not prims.is_log_mac(s_.get('mac', '')):
+                rv_ = s_['rv']
+                cb = rv_['b'].get('val') if rv_['b'].get('k') == 'const' else None
+                out.append((rv_['op'], cb, show(v.rvalue_expr(rv_, i)), i))
+        return out
+
+    dv = ctx.fn('decode::decode_vli')
+    bo = _binops(dv)
+    masks = sorted(c for op, c, txt, i in bo if op == 'BitAnd')
+    ctx.ob(masks == [127, 128], 'decode_vli masks the value bits with 0x7F and the continuation bit with 0x80 (%s)' % masks, 'vbi|decode|masks', loc=dv.loc(), rule='R-C03-7')
+    ctx.ob(any(op in ('Add', 'AddWithOverflow', 'Mul', 'MulWithOverflow') and c == 7 for op, c, txt, i in bo) and any(op == 'Shl' and 'BitAnd 127' in txt for op, c, txt, i in bo) and
+           any(op == 'BitOr' and txt.startswith('(value BitOr ') for op, c, txt, i in bo), 'decode_vli accumulates 7 bits per byte, least significant group first', 'vbi|decode|shift', loc=dv.loc(), rule='R-C03-7')
+    alltxt = [txt for op, c, txt, i in bo] + [g for i_ in dv.live_blocks() for g in prims.guard_strs_plain(dv, i_)]
+    ctx.ob(any(re.search(r'BitAnd 128\) (Ne|Eq|==|!=) 0\)', x) for x in alltxt), 'decode_vli decides continuation by bit 7 of the byte', 'vbi|decode|continuation', loc=dv.loc(), rule='R-C03-7')
+    okv = [(b, show(e)) for b, e in prims.ret_variants(dv) if 'DecodeVliResult::Value{' in show(e)]
+    ctx.ob(len(okv) == 1 and re.search(r"^Result::Ok\{0: DecodeVliResult::Value\{0: value, 1: Index::index\(buffer, RangeFrom\{start: \(\(.* AddWithOverflow 1\)\)\.0\}\)\}\}$", okv[0][1]) is not None,
+           'decode_vli returns the accumulated value and the bytes after the last length byte', 'vbi|decode|value', loc=dv.loc(), rule='R-C03-7')
+    fours = [show(c.arg(k)) for c in dv.calls() for k in range(len(c.args)) if c.nfn.split('::')[-1] in ('into_iter', 'take')]
+    ctx.ob(any(re.search(r'Range\{start: 0, end: 4\}', x) or x == '4' for x in fours) or any(op in ('Lt', 'Ge') and c == 4 for op, c, txt, i in bo), 'decode_vli reads at most four bytes', 'vbi|decode|four', loc=dv.loc(), rule='R-C03-7')
 
     # ------------------------------------------------------------ R-C03-4
     ctx.rule('R-C03-4', 'T2 + T1', 'the body state is entered only under total_packet_size <= maximum; body bytes are buffered only in the body-state function; cross-call decoder state is written only by the three state functions and reset')
@@ -302,6 +331,12 @@ def run(ctx):
         want_t = sorted(['(decode::decode_vli(Deref::deref(self.scratch)))@Ok.0@Value.0', '1', 'Vec::len(self.scratch) as u32'])
         ctx.ob(terms == [want_t], 'the size compared is the whole packet: remaining length + first byte + length-field bytes (%s)' % terms, 'limit|total', loc=plr.loc())
 
+    # (added after seed C03-3a) a decoding failure is scoped to its connection: the per-connection reset restores every decoder field, also out of the latched error state
+    rcn = ctx.fn('Decoder::reset_for_new_connection')
+    eff_ = prims.must_field_effects(F, rcn)
+    for f_, w_ in sorted({'state': 'DecoderState::ReadPacketType{}', 'scratch': 'clear()', 'first_byte': 'Option::None{}', 'remaining_length': 'Option::None{}'}.items()):
+        ctx.ob(w_ in eff_.get(f_, set()), 'Decoder::reset_for_new_connection performs `%s := %s` on every path, whatever state the decoder is in (found %s)' % (f_, w_, sorted(eff_.get(f_, []))), 'newconn-reset|' + f_, loc=rcn.loc(), rule='R-C03-4')
+
     # ------------------------------------------------------------ R-C03-6
     ctx.rule('R-C03-6', 'T9 value flow', 'stream consumption arithmetic: each state function consumes exactly what it buffers/decodes and hands the untouched remainder back, so the decoded packets depend only on the concatenated stream (necessary for chunking invariance)')
     N = r'\(\(Option::unwrap\(self\.remaining_length\) SubWithOverflow Vec::len\(self\.scratch\)\)\)\.0'
@@ -315,7 +350,6 @@ def run(ctx):
     ctx.ob(ok, 'body state, not enough input: the whole chunk is buffered and nothing is left over', 'consume|body|short', loc=pb.loc())
     ok = len(cont) == 1 and re.search(r'1: Index::index\(bytes, RangeFrom\{start: ' + N + r'\}\)\}$', show(cont[0][1])) is not None
     ctx.ob(ok, 'body state, packet complete: the remainder handed back starts exactly after the bytes this packet needed', 'consume|body|rest', loc=pb.loc())
-    from ..mir import var_inits
     ps = [(show(e), guard_strs(pb, b)) for b, e in var_inits(pb, 'packet_slice')]
     ok = len(ps) == 2 and any(s_ == 'Deref::deref(self.scratch)' and '!Vec::is_empty(self.scratch)' in g for s_, g in ps) and \
         any(re.match(r'^Index::index\(bytes, RangeTo\{end: ' + N + r'\}\)$', s_) and 'Vec::is_empty(self.scratch)' in g for s_, g in ps)
@@ -435,6 +469,14 @@ def run_layout(ctx, F):
             else:
                 ctx.ob(w == g, '%s (MQTT %s): `%s` reads the cursor left by %s%s' % (var, ver, lab, sorted(w), '' if w == g else ' — found %s' % sorted(g)),
                        'layout|%s|%s|%s' % (var, ver, lab), loc=v.loc())
+        if PLEN in want:
+            # the announced property length must fit what is left of the packet (== for packets that end with their properties)
+            r_eq = prims.rets_after(v, [r'^!\(\w+ == slice::len\(\w+\)\)$'])
+            r_lt = prims.rets_after(v, [r'^\(slice::len\(\w+\) < \w+\)$'])
+            ends_with_props = 'to:$len' not in want
+            ctx.ob((r_eq == {'Err'}) if ends_with_props else (r_lt == {'Err'}),
+                   '%s (MQTT %s): a property length that %s is a decoding error (%s)' % (var, ver, 'differs from the bytes left' if ends_with_props else 'exceeds the bytes left', sorted((r_eq if ends_with_props else r_lt) or ['test not found'])),
+                   'layout|%s|%s|proplen-check' % (var, ver), loc=v.loc())
         # field-level semantics around the chain
         fw = [(i, show(pe), show(rve)) for (i, s_, pe, rve) in v.field_writes()]
         if var == 'Publish':
